@@ -30,3 +30,4 @@ def run(prog, rep):
     from ..rules import r_key as _rk14
     _rk14.run_setter_verbatim(prog, rep, classes=('nix::Property', 'nix::Section'), floor=6)
     _rk14.run_store_verbatim(prog, rep)
+    _rk14.run_getter_verbatim(prog, rep)
